@@ -35,6 +35,12 @@ def configs(tier):
       for fuse in (True, False):
         sh.append(('sharded', dict(W=W, S=S, total=7, batch=2, fuse=fuse,
                                    sliced=True)))
+  # aggregates in two separately named stages: every shard state carries the
+  # keys of both stages
+  for W in (1, 2):
+    for S in (1, 2, 3):
+      for total in (0, 3, 6):
+        sh.append(('sharded', dict(W=W, S=S, total=total, batch=2, agg='two')))
   for W in (1, 2):
     for buf in (0, 1, 2):
       for total, batch in ((0, 2), (3, 2), (4, 2), (5, 2)):
@@ -93,7 +99,8 @@ def run(ctx):
       'the default schedule; 5 configurations with every placement of one pause '
       'of the orchestrating loop (slow orchestrator, pause until quiescence, once '
       'per executed line); 5 configurations with every placement of one late '
-      'reply; 4 configurations with the worker shuffles as environment choices '
+      'reply; 18 sharded configurations with aggregates in two separately named '
+      'stages; 4 configurations with the worker shuffles as environment choices '
       '(<= 2 deviations, thorough 3); the smallest instance of each driver under delay '
       f'bound {1 if ctx.quick else 2}; merge_states strict count for all '
       '(m, n) in 0..4 x 1..5 on both runner kinds. distinct = distinct configuration '
